@@ -169,6 +169,11 @@ def run(ctx):
         ctx.case(canon, nontrivial=rec['nontrivial'], sample=rec['sample'])
         ctx.count('length', len(replies))
         ctx.count('outcome', rec['outcome'])
+        ctx.count('factory', rec['factory'].split(':')[0])
+        if rec['factory_mismatch'] and not found and 'factory' not in seen_viol:
+            seen_viol.add('factory')
+            ctx.disagreement('factory-vs-flags', '%s (replies %r, config %r)' % (rec['factory_mismatch'], replies, cfg),
+                             case={'cfg': cfg, 'local': local, 'replies': replies})
         ctx.count('auth', cfg['auth'])
         ctx.count('version', cfg['version'])
         for r in replies:
@@ -217,7 +222,11 @@ def replay(ctx, rp):
     for r, o in zip([['(constructed)']] + case['replies'], obs):
         print('  %-28r sent=%r %r' % (r, [(f['kind'], f['compressed'], f['checksummed']) for f in o['sent']],
                                       {k: v for k, v in o.items() if k != 'sent'}))
-    found = oracle(case['cfg'], case['local'], case['replies'], obs)
+    with H.patched_reactors():
+        fac = H.run_factory(case['cfg'], case['local'], case['replies'])
+    H.shutdown()
+    print('  Connection.factory() -> %s' % fac)
+    found = oracle(case['cfg'], case['local'], case['replies'], obs, fac)
     for key, what, thm in found:
         print('  property fails: %s [%s]' % (what, thm))
     print(('VIOLATION property=C47 replay=%s' % ctx.replay_path) if found else 'not reproduced')
